@@ -61,6 +61,11 @@ def gen_rt(rng, tier):
         names = [rng.choice(pool) for _ in range(m)]
         if rng.random() < 0.3:
             names = [names[0]] * m
+        if t % 10 == 3:
+            # a fixed share: a repeated name whose suffixed forms (a-1, a-2, a-3 …) are names of other columns, several in a row
+            m = rng.randint(4, 7)
+            names = ["a", "a"] + [rng.choice(["a", "a-1", "a-2", "a-3", "a-1-1"]) for _ in range(m - 2)]
+            rng.shuffle(names)
         table = [[bits(rand_double(rng)) for _ in range(m)] for _ in range(ns)]
         if rng.random() < 0.12:
             # a table of whole numbers only (case/control labels, counts) – with a negative zero among them
@@ -243,6 +248,13 @@ def gen_ops(rng, tier):
             off, step = rng.choice([(1e8, 1.0), (1e8, 0.001), (2450000.5, 0.01), (37.0, 1e-7), (-1e6, 0.5), (1e12, 3.0), (170.0, 1.0)])
             for r in data:
                 r[j] = off + step * rng.randint(0, 19)
+        if rng.random() < 0.15:
+            # a column of extreme magnitude (the statement quantifies over 1e-300 … 1e+300 and subnormals): its spread is far
+            # outside the range in which squares are representable, yet it is not constant
+            j = rng.randrange(m)
+            unit = rng.choice([1e-300, 1e-200, 1e-160, 5e-324, 1e160, 1e200, 1e300])
+            for r in data:
+                r[j] = unit * rng.randint(-3, 9)
         names = [f"p{j}" for j in range(m)]
         cs = rng.choice([None, rng.sample(names, rng.randint(1, m))])
         rs_special = None
@@ -332,8 +344,11 @@ def oracle_ops(case, obs):
             var = sum((x - mean) ** 2 for x in std) / ns
             # the mean of the input is itself only known to a few ulp of the largest entry: allow that, relative to the spread
             em = sum(Fr(x) for x in col) / ns
-            esd = float(sum((Fr(x) - em) ** 2 for x in col) / ns) ** 0.5
-            tol_mean = 1e-9 + 8 * ns * 2.3e-16 * max(abs(x) for x in col) / esd
+            big = max(abs(Fr(x)) for x in col)
+            # spread relative to the largest entry, computed on exact fractions (the floats themselves may be far outside the range
+            # in which their squares are representable)
+            rel_sd = float(sum((Fr(x) - em) ** 2 for x in col) / ns / big**2) ** 0.5
+            tol_mean = 1e-9 + 8 * ns * 2.3e-16 / rel_sd
             if abs(mean) > tol_mean or abs(var - 1) > 1e-9:
                 return f"column {col} standardised to {std}: mean {mean}, variance {var} (expected 0 and 1)"
     if "append_history" in obs:
